@@ -4,20 +4,23 @@
     tools/rs2v.py /repo/src/bi.rs > build/gen/BiGen.v
 
 The numeric methods of `impl BOpinion<$ft>` (projection, mul, comul, cfuse, afuse, wfuse, deduce, trans_unc,
-trans_opp, trans_bsr), the checked constructors (BOpinion::try_new/new, BSimplex::try_new/new) and the two
-checking functions (check_simplex, check_base_rate) are written in a small, first-order subset of Rust: let
-bindings (also declared first and assigned in the branches of an if), if / else if / else, match on a tuple
-of booleans, float arithmetic, comparisons, `ulps_eq!(e, 0.0|1.0)`, the accessors b() d() u() a(), `?` and
-`.unwrap()` on the checks.  This script parses exactly that subset (anything else is an error: the tie is
-then reported as broken) and prints one Gallina definition per function, over the same number structure as
-the hand-written model (coq/Model/Num.v): every float operation becomes the NaN-carrying lifted operation,
-`Result<(), E>` becomes bool, `Result<T, E>` / a panicking constructor becomes option.  coq/Gen/BiGenEq.v then
-proves each generated definition equal to the model's (coq/Model/Bi.v) for every number structure.
+trans_opp, trans_bsr), the checked constructors (BOpinion::try_new/new, BSimplex::try_new/new), the two checking
+functions (check_simplex, check_base_rate) and whatever private helper functions they call are written in a small,
+first-order subset of Rust:
+  let bindings (identifier, tuple and array patterns; also declared first and assigned in the branches of an if),
+  if / else if / else, early `return`, match on a tuple of booleans, `for` over an array literal (unrolled),
+  non-capturing-by-mutation closures (inlined at their calls), calls of other functions of the file,
+  float arithmetic, comparisons, `ulps_eq!(e, 0.0|1.0)`, the accessors b() d() u() a(), `?` and `.unwrap()`.
+This script parses exactly that subset (anything else is an error: the tie is then reported as broken) and prints
+one Gallina definition per function, over the same number structure as the hand-written model (coq/Model/Num.v):
+every float operation becomes the NaN-carrying lifted operation, `Result<(), E>` becomes bool, `Result<T, E>` and
+a panicking constructor become option.  coq/Gen/BiGenEq.v then proves each generated operator equal to the model's
+(coq/Model/Bi.v) for every number structure.
 
 What is interpreted rather than translated (the translator's own trusted table): the accessors b()/d()/u()/a()
-(their bodies are checked against the expected text below), `check_unit_interval` = Num.in_unit,
-`check_is_one` = Num.is_one, `ulps_eq!(e, 1.0)` = Num.is_one, `ulps_eq!(e, 0.0)` = Num.is_zero (these are the
-subject of C01's bit-exact theorems), Rust's left-to-right evaluation of the arithmetic (kept as written).
+(their bodies are checked against the expected text below), `check_unit_interval` = Num.in_unit, `check_is_one` =
+Num.is_one, `ulps_eq!(e, 1.0)` = Num.is_one, `ulps_eq!(e, 0.0)` = Num.is_zero (these are the subject of C01's
+bit-exact theorems), Rust's left-to-right evaluation of the arithmetic (kept as written), error labels (dropped).
 """
 import re
 import sys
@@ -31,10 +34,11 @@ class Unsupported(Exception):
 
 TOK = re.compile(r"""
     (?P<ws>\s+|//[^\n]*)
+  | (?P<attr>\#\[[^\]]*\])
   | (?P<num>\d+\.\d+|\d+)
   | (?P<str>"(?:[^"\\]|\\.)*")
   | (?P<id>\$?[A-Za-z_][A-Za-z0-9_]*)
-  | (?P<op>::|->|=>|==|!=|>=|<=|&&|\|\||[-+*/=<>!&|.,;:?(){}\[\]])
+  | (?P<op>::|->|=>|==|!=|>=|<=|&&|\|\||[-+*/=<>!&|.,;:?(){}\[\]'])
 """, re.X)
 
 
@@ -46,7 +50,7 @@ def lex(src):
         if not m:
             raise Unsupported("cannot tokenise at: %r" % src[i:i + 30])
         i = m.end()
-        if m.lastgroup == "ws":
+        if m.lastgroup in ("ws", "attr"):
             continue
         out.append((m.lastgroup, m.group(m.lastgroup)))
     return out
@@ -81,6 +85,33 @@ class P:
             return True
         return False
 
+    def let_pattern(self):
+        """ident | (p, ...) | [p, ...] | _"""
+        if self.maybe("("):
+            ps = []
+            while not self.at(")"):
+                ps.append(self.let_pattern())
+                if not self.maybe(","):
+                    break
+            self.eat(")")
+            return ("ptuple", ps)
+        if self.maybe("["):
+            ps = []
+            while not self.at("]"):
+                ps.append(self.let_pattern())
+                if not self.maybe(","):
+                    break
+            self.eat("]")
+            return ("parray", ps)
+        if self.maybe("mut"):
+            raise Unsupported("let mut")
+        if self.maybe("&"):
+            return self.let_pattern()
+        kind, name = self.next()
+        if kind != "id":
+            raise Unsupported("pattern %r" % (name,))
+        return ("pvar", name)
+
     # block := '{' stmt* [expr] '}'
     def block(self):
         self.eat("{")
@@ -89,18 +120,28 @@ class P:
         while not self.at("}"):
             if self.at("let"):
                 self.next()
-                if self.maybe("mut"):
-                    raise Unsupported("let mut")
-                kind, name = self.next()
-                if kind != "id":
-                    raise Unsupported("pattern in let")
+                pat = self.let_pattern()
                 if self.maybe(":"):
                     self.skip_type()
                 init = None
                 if self.maybe("="):
                     init = self.expr()
                 self.eat(";")
-                stmts.append(("let", name, init))
+                stmts.append(("let", pat, init))
+                continue
+            if self.at("return"):
+                self.next()
+                e = None if self.at(";") else self.expr()
+                self.maybe(";")
+                stmts.append(("return", e))
+                continue
+            if self.at("for"):
+                self.next()
+                pat = self.let_pattern()
+                self.eat("in")
+                it = self.expr(nostruct=True)
+                body = self.block()
+                stmts.append(("for", pat, it, body))
                 continue
             e = self.expr()
             if self.maybe(";"):
@@ -113,7 +154,7 @@ class P:
                 stmts.append(("assign", e[1], rhs))
             elif self.at("}"):
                 tail = e
-            elif e[0] in ("if", "match"):
+            elif e[0] in ("if", "match", "block"):
                 stmts.append(("expr", e))
             else:
                 raise Unsupported("statement: unexpected %r" % (self.peek()[1],))
@@ -124,13 +165,15 @@ class P:
         depth = 0
         while True:
             k, v = self.peek()
+            if k == "eof":
+                return
             if v in ("<", "(", "["):
                 depth += 1
             elif v in (">", ")", "]"):
                 if depth == 0:
                     return
                 depth -= 1
-            elif depth == 0 and v in ("=", ";", ",", "{"):
+            elif depth == 0 and v in ("=", ";", ",", "{", "|"):
                 return
             self.next()
 
@@ -141,7 +184,6 @@ class P:
         while True:
             k, v = self.peek()
             if k == "op" and v in self.PREC and self.PREC[v] > minp:
-                # `a = b` is not an operator; `=` never reaches here (not in PREC)
                 self.next()
                 rhs = self.expr(self.PREC[v], nostruct)
                 lhs = ("bin", v, lhs, rhs)
@@ -229,6 +271,23 @@ class P:
             return es[0]
         if v == "[":
             return ("array", self.args("]"))
+        if v in ("|", "||"):
+            params = []
+            if v == "|":
+                while not self.at("|"):
+                    pat = self.let_pattern()
+                    if pat[0] != "pvar":
+                        raise Unsupported("closure parameter pattern")
+                    if self.maybe(":"):
+                        self.skip_type()
+                    params.append(pat[1])
+                    if not self.maybe(","):
+                        break
+                self.eat("|")
+            if self.maybe("->"):
+                self.skip_type()
+            body = self.block() if self.at("{") else self.expr()
+            return ("closure", params, body)
         if v == "if":
             cond = self.expr(nostruct=True)
             th = self.block()
@@ -259,7 +318,7 @@ class P:
                 self.eat("(")
                 return ("macro", v, self.args())
             parts = self.path(v)
-            if self.at("(") :
+            if self.at("("):
                 self.next()
                 return ("call", parts, self.args())
             if self.at("{") and not nostruct and parts[0][0].isupper():
@@ -267,8 +326,10 @@ class P:
                 fields = []
                 while not self.at("}"):
                     fname = self.next()[1]
-                    self.eat(":")
-                    fields.append((fname, self.expr()))
+                    if self.maybe(":"):
+                        fields.append((fname, self.expr()))
+                    else:
+                        fields.append((fname, ("var", fname)))
                     self.maybe(",")
                 self.eat("}")
                 return ("struct", parts, fields)
@@ -278,7 +339,9 @@ class P:
         raise Unsupported("expression: unexpected %r" % (v,))
 
     def pattern(self):
-        self.eat("(")
+        """a tuple of true | false | _ | identifier, or a single such item"""
+        if not self.maybe("("):
+            return [self.next()[1]]
         ps = []
         while not self.at(")"):
             ps.append(self.next()[1])
@@ -289,42 +352,34 @@ class P:
 
 # --------------------------------------------------- locating the functions
 
-def find_fn(src, name, start=0):
-    m = re.compile(r"\bfn\s+%s\b" % re.escape(name)).search(src, start)
-    if not m:
-        raise Unsupported("function %s not found" % name)
-    i = src.index("(", m.end())
-    depth = 0
-    j = i
-    while True:
-        depth += (src[j] == "(") - (src[j] == ")")
-        j += 1
-        if depth == 0:
-            break
-    params = src[i + 1:j - 1]
-    k = src.index("{", j)
-    header = src[j:k]
+def brace_end(src, k):
     depth = 0
     e = k
     while True:
         depth += (src[e] == "{") - (src[e] == "}")
         e += 1
         if depth == 0:
-            break
-    return params, header, src[k:e], e
+            return e
 
 
-def param_names(params):
-    out = []
-    for p in split_top(params):
-        p = p.strip()
-        if not p:
+def all_fns(src):
+    """{name: (params text, header text, body text)} of every `fn` in src (first definition wins)"""
+    out = {}
+    for m in re.finditer(r"\bfn\s+([A-Za-z_][A-Za-z0-9_]*)\s*(<[^>(]*>)?\s*\(", src):
+        name = m.group(1)
+        i = m.end() - 1
+        depth = 0
+        j = i
+        while True:
+            depth += (src[j] == "(") - (src[j] == ")")
+            j += 1
+            if depth == 0:
+                break
+        k = src.find("{", j)
+        semi = src.find(";", j)
+        if k < 0 or (0 <= semi < k):
             continue
-        if p in ("&self", "self"):
-            out.append(("self", "Self"))
-            continue
-        n, t = p.split(":", 1)
-        out.append((n.strip(), t.strip()))
+        out.setdefault(name, (src[i + 1:j - 1], src[j:k], src[k:brace_end(src, k)]))
     return out
 
 
@@ -344,29 +399,85 @@ def split_top(s):
     return out
 
 
+def param_list(params):
+    out = []
+    for p in split_top(params):
+        p = p.strip()
+        if not p:
+            continue
+        if p in ("&self", "self"):
+            out.append(("self", "Self"))
+            continue
+        n, t = p.split(":", 1)
+        out.append((n.strip(), t.strip()))
+    return out
+
+
+def type_sort(t, region):
+    t = re.sub(r"\s+", "", t)
+    t = re.sub(r"^&('[a-z_]+)?", "", t)
+    if t in ("$ft", "V", "f32", "f64", "T"):
+        return "num"
+    if t == "Self":
+        return "sx" if region == "impl_simplex" else "bop"
+    if re.fullmatch(r"BOpinion<[^>]*>", t):
+        return "bop"
+    if re.fullmatch(r"BSimplex<[^>]*>", t):
+        return "sx"
+    if re.fullmatch(r"\[BSimplex<[^>]*>;2\]", t):
+        return "sx2"
+    if t == "bool":
+        return "bool"
+    if t in ("str", "S", "String", "'staticstr"):
+        return "str"
+    raise Unsupported("parameter / result type %s" % t)
+
+
+def ret_sort(header, region):
+    m = re.search(r"->\s*(.*?)\s*(where\b.*)?$", header.strip(), re.S)
+    if not m:
+        return "unit"
+    t = re.sub(r"\s+", "", m.group(1))
+    if t.startswith("Result<(),"):
+        return "res"
+    m2 = re.fullmatch(r"Result<(.*),InvalidValueError>", t)
+    if m2:
+        return "opt_" + type_sort(m2.group(1), region)
+    s = type_sort(t, region)
+    # a constructor / operator that panics instead of returning an error: None = panic
+    return "opt_" + s if s in ("bop", "sx") else s
+
+
 # ------------------------------------------------------------- translation
 
 NUM = {"0.0": "zero", "1.0": "one", "2.0": "two"}
 ARITH = {"+": "add", "-": "sub", "*": "mul", "/": "div"}
-BOOLRES = {"check_simplex", "check_base_rate", "check_unit_interval", "check_is_one"}
+RESERVED = {"mul", "add", "sub", "div", "one", "zero", "two", "eps", "fst", "snd", "bb", "bd", "bu", "ba", "sx", "bop",
+            "leb", "ltb", "gtb", "eqb", "negb", "andb", "orb", "is_zero", "is_one", "in_unit", "if", "then", "else", "let",
+            "in", "match", "with", "end", "fun", "Some", "None", "true", "false", "tt", "V", "F", "B"}
+GTYPE = {"num": "V", "bool": "bool", "bop": "bop", "sx": "sx", "sx2": "(sx * sx)", "res": "bool", "opt_bop": "option bop",
+         "opt_sx": "option sx", "unit": "unit"}
 
 
 class Tr:
     """CPS translation of one function body; values carry a sort:
-       num | bool | bop | sx (b,d,u triple) | opt_bop | opt_sx | res (bool for Result<(),E>) | unit"""
+       num | bool | bop | sx (b,d,u triple) | sx2 | pair (array of two numbers) | opt_bop | opt_sx |
+       res (bool for Result<(),E>) | unit | str | tuple (python list of (term, sort)) | closure"""
 
-    def __init__(self, fname, ret, env):
+    def __init__(self, mod, region, fname, ret):
+        self.mod = mod
+        self.region = region
         self.fname = fname
-        self.ret = ret          # 'num' | 'res' | 'opt_bop' | 'opt_sx'
-        self.env = dict(env)    # rust name -> (gallina term, sort)
+        self.ret = ret
         self.n = 0
+        self.kret = None
 
     def fresh(self, base):
         self.n += 1
         return "%s_%d" % (base, self.n)
 
     def fail(self):
-        return {"res": "false", "opt_bop": "None", "opt_sx": "None"}.get(self.ret) or self.err("failure in a function returning a number")
+        return {"res": "false", "opt_bop": "None", "opt_sx": "None"}.get(self.ret) or self.err("failure in a function returning %s" % self.ret)
 
     def err(self, msg):
         raise Unsupported("%s: %s" % (self.fname, msg))
@@ -377,30 +488,52 @@ class Tr:
         _, stmts, tail = blk
         return self.stmts(list(stmts), tail, dict(env), k)
 
+    def bind(self, pat, t, s, env, cont):
+        """bind pattern to value (t, s); cont(env') -> term"""
+        if pat[0] == "pvar":
+            name = pat[1]
+            env2 = dict(env)
+            if name == "_":
+                return cont(env2)
+            if s in ("tuple", "closure", "str", "unit") or re.fullmatch(r"[A-Za-z_][A-Za-z0-9_']*", t or ""):
+                env2[name] = (t, s)
+                return cont(env2)
+            g = self.gname(name, env)
+            env2[name] = (g, s)
+            return "let %s := %s in\n  %s" % (g, t, cont(env2))
+        if pat[0] == "ptuple":
+            if s != "tuple" or len(t) != len(pat[1]):
+                self.err("tuple pattern against a %s" % s)
+
+            def go(i, envi):
+                if i == len(pat[1]):
+                    return cont(envi)
+                return self.bind(pat[1][i], t[i][0], t[i][1], envi, lambda e2: go(i + 1, e2))
+            return go(0, env)
+        if pat[0] == "parray":
+            if s == "sx2" and len(pat[1]) == 2:
+                return self.bind(pat[1][0], "(fst %s)" % t, "sx", env,
+                                 lambda e2: self.bind(pat[1][1], "(snd %s)" % t, "sx", e2, cont))
+            self.err("array pattern against a %s" % s)
+        self.err("pattern %s" % pat[0])
+
     def stmts(self, stmts, tail, env, k):
         if not stmts and tail is not None and tail[0] == "if" and not self.is_value_if(tail):
-            stmts, tail = [("expr", tail)], None      # `else if` chain of assignments
+            stmts, tail = [("expr", tail)], None      # `else if` chain of assignments / returns
         if not stmts:
             if tail is None:
                 return k("tt", "unit", env)
             return self.expr(tail, env, lambda t, s: k(t, s, env))
         st, rest = stmts[0], stmts[1:]
         if st[0] == "let":
-            _, name, init = st
+            _, pat, init = st
             if init is None:
+                if pat[0] != "pvar":
+                    self.err("declaration of a pattern without a value")
                 env2 = dict(env)
-                env2[name] = (None, "undef")
+                env2[pat[1]] = (None, "undef")
                 return self.stmts(rest, tail, env2, k)
-
-            def bound(t, s):
-                env2 = dict(env)
-                if re.fullmatch(r"[A-Za-z_][A-Za-z0-9_']*", t):
-                    env2[name] = (t, s)
-                    return self.stmts(rest, tail, env2, k)
-                g = self.gname(name, env)
-                env2[name] = (g, s)
-                return "let %s := %s in\n  %s" % (g, t, self.stmts(rest, tail, env2, k))
-            return self.expr(init, env, bound)
+            return self.expr(init, env, lambda t, s: self.bind(pat, t, s, env, lambda e2: self.stmts(rest, tail, e2, k)))
         if st[0] == "assign":
             _, name, rhs = st
             if name not in env or env[name][1] != "undef":
@@ -408,43 +541,64 @@ class Tr:
 
             def bound(t, s):
                 env2 = dict(env)
-                g = self.gname(name, env)
-                env2[name] = (g, s)
-                return "let %s := %s in\n  %s" % (g, t, self.stmts(rest, tail, env2, k))
+                del env2[name]
+                return self.bind(("pvar", name), t, s, env2, lambda e3: self.stmts(rest, tail, e3, k))
             return self.expr(rhs, env, bound)
+        if st[0] == "return":
+            if st[1] is None:
+                self.err("return without a value")
+            return self.expr(st[1], env, lambda t, s: self.kret(t, s, env))
+        if st[0] == "for":
+            _, pat, it, body = st
+            if it[0] != "array":
+                self.err("for over something other than an array literal")
+            unrolled = []
+            for el in it[1]:
+                unrolled.append(("expr", ("block", [("let", pat, el)] + list(body[1]) + ([("expr", body[2])] if body[2] else []), None)))
+            return self.stmts(unrolled + rest, tail, env, k)
         if st[0] == "expr":
             e = st[1]
+            if e[0] == "block":
+                # a nested block statement: its bindings are local, the rest continues in the outer environment
+                return self.stmts(list(e[1]) + ([("expr", e[2])] if e[2] is not None else []), None, dict(env),
+                                  lambda t, s, _e: self.stmts(rest, tail, env, k))
             if e[0] == "if" and not self.is_value_if(e):
-                # statement-if whose branches assign declared variables: the rest of the block is the
-                # continuation of every branch
+                # statement-if: the rest of the block is the continuation of every branch
                 _, cond, th, el = e
-                if el is None:
-                    self.err("if without else")
 
                 def after(t, s, envb):
-                    return self.stmts(rest, tail, envb, k)
+                    # variables declared before the if and assigned in the branch stay visible
+                    env2 = dict(env)
+                    for name, v in envb.items():
+                        if name in env and env[name][1] == "undef":
+                            env2[name] = v
+                    return self.stmts(rest, tail, env2, k)
+                elb = el if el is not None else ("block", [], None)
                 return self.expr(cond, env, lambda c, s: "if %s\n  then %s\n  else %s" % (
-                    c, self.block(th, env, after), self.block(el, env, after)))
-            # `check(...)?;` / `check(...).unwrap();`
+                    c, self.block(th, env, after), self.block(elb, env, after)))
 
             def seq(t, s):
-                if s in ("unit",):
+                if s == "unit":
                     return self.stmts(rest, tail, env, k)
                 self.err("expression statement of sort %s" % s)
             return self.expr(e, env, seq, stmt=(rest, tail, env, k))
         self.err("statement %r" % (st[0],))
 
     def gname(self, name, env):
-        used = {v[0] for v in env.values() if v[0]}
-        g = name if name not in ("mul", "add", "sub", "div", "one", "zero", "two", "eps") else name + "_"
+        used = {v[0] for v in env.values() if isinstance(v[0], str)}
+        g = name if name not in RESERVED and not name.startswith("g_") else name + "_"
         while g in used:
             g += "'"
         return g
 
     def is_value_if(self, e):
-        """an if whose branches end in an expression (no assignments)"""
+        """an if whose branches all end in an expression (no assignments, no returns)"""
         def blk_val(b):
-            return b is not None and b[2] is not None and not any(s[0] == "assign" for s in b[1])
+            if b is None or b[2] is None or any(s[0] in ("assign", "return") for s in b[1]):
+                return False
+            if b[2][0] == "if" and not b[1]:
+                return self.is_value_if(b[2])
+            return True
         return blk_val(e[2]) and blk_val(e[3])
 
     # ---- expressions
@@ -469,11 +623,21 @@ class Tr:
             if op in (">", "<", ">=", "<="):
                 f = {">": "gtb %s %s", "<": "ltb %s %s", ">=": "leb %s %s", "<=": "leb %s %s"}[op]
                 return self.expr(l, env, lambda a, sa: self.expr(r, env, lambda b, sb: k(
-                    "(" + (f % ((b, a) if op == ">=" else (a, b))) + ")", "bool")))
-            if op == "&&":
-                return self.expr(l, env, lambda a, sa: self.expr(r, env, lambda b, sb: k("(%s && %s)" % (a, b), "bool")))
-            if op == "||":
-                return self.expr(l, env, lambda a, sa: self.expr(r, env, lambda b, sb: k("(%s || %s)" % (a, b), "bool")))
+                    "(" + (f % ((b, a) if op == ">=" else (a, b))) + ")", "bool") if (sa, sb) == ("num", "num")
+                    else self.err("comparison of %s and %s" % (sa, sb))))
+            if op in ("==", "!="):
+                def eq(a, sa, b, sb):
+                    if (sa, sb) == ("bool", "bool"):
+                        tm = "(Bool.eqb %s %s)" % (a, b)
+                    elif (sa, sb) == ("num", "num"):
+                        tm = "(eqb %s %s)" % (a, b)
+                    else:
+                        self.err("== on %s and %s" % (sa, sb))
+                    return k(tm if op == "==" else "(negb %s)" % tm, "bool")
+                return self.expr(l, env, lambda a, sa: self.expr(r, env, lambda b, sb: eq(a, sa, b, sb)))
+            if op in ("&&", "||"):
+                return self.expr(l, env, lambda a, sa: self.expr(r, env, lambda b, sb: k("(%s %s %s)" % (a, op, b), "bool")
+                                 if (sa, sb) == ("bool", "bool") else self.err("%s on %s and %s" % (op, sa, sb))))
             self.err("operator %s" % op)
         if t == "field":
             _, obj, name = e
@@ -482,6 +646,8 @@ class Tr:
             _, obj, name, args = e
             if name == "unwrap" and not args:
                 return self.expr(obj, env, lambda a, s: self.unwrap(a, s, k, stmt))
+            if name in ("into", "clone", "to_owned", "copied") and not args:
+                return self.expr(obj, env, k)
             return self.expr(obj, env, lambda a, s: self.method(a, s, name, args, env, k))
         if t == "try":
             return self.expr(e[1], env, lambda a, s: self.unwrap(a, s, k, stmt))
@@ -495,7 +661,7 @@ class Tr:
             if name != "ulps_eq" or len(args) != 2 or args[1][0] != "num" or args[1][1] not in ("0.0", "1.0"):
                 self.err("macro %s! other than ulps_eq!(e, 0.0 | 1.0)" % name)
             f = "is_zero" if args[1][1] == "0.0" else "is_one"
-            return self.expr(args[0], env, lambda a, s: k("(%s %s)" % (f, a), "bool"))
+            return self.expr(args[0], env, lambda a, s: k("(%s %s)" % (f, a), "bool") if s == "num" else self.err("ulps_eq! on a %s" % s))
         if t == "if":
             _, cond, th, el = e
             if el is None or not self.is_value_if(e):
@@ -521,7 +687,14 @@ class Tr:
         if t == "tuple":
             if not e[1]:
                 return k("tt", "unit")
-            self.err("tuple value")
+
+            def go(i, acc):
+                if i == len(e[1]):
+                    return k(acc, "tuple")
+                return self.expr(e[1][i], env, lambda a, s: go(i + 1, acc + [(a, s)]))
+            return go(0, [])
+        if t == "closure":
+            return k((e[1], e[2], dict(env)), "closure")
         if t == "call":
             return self.call(e, env, k)
         if t == "struct":
@@ -530,7 +703,8 @@ class Tr:
             if len(e[1]) != 2:
                 self.err("array literal of length %d" % len(e[1]))
             return self.expr(e[1][0], env, lambda a, sa: self.expr(e[1][1], env, lambda b, sb: (
-                k("%s, %s" % (a, b), "pair") if (sa, sb) == ("num", "num") else self.err("array of %s, %s" % (sa, sb)))))
+                k("%s, %s" % (a, b), "pair") if (sa, sb) == ("num", "num") else
+                k("(%s, %s)" % (a, b), "sx2") if (sa, sb) == ("sx", "sx") else self.err("array of %s, %s" % (sa, sb)))))
         if t == "str":
             return k('""', "str")
         self.err("expression form %s" % t)
@@ -545,17 +719,18 @@ class Tr:
             return k("(ba %s)" % a, "num")
         if s == "bop" and name == "simplex":
             return k("(sx_of %s)" % a, "sx")
+        if s == "tuple" and name.isdigit() and int(name) < len(a):
+            return k(*a[int(name)])
         self.err("field .%s of a %s" % (name, s))
 
     def method(self, a, s, name, args, env, k):
-        if args and name not in ("mul", "comul"):
-            self.err("method %s with arguments" % name)
-        if s == "bop" and name in ("b", "d", "u", "a"):
+        if s == "bop" and name in ("b", "d", "u", "a") and not args:
             return k("(b%s %s)" % (name, a), "num")
-        if s == "sx" and name in ("b", "d", "u"):
+        if s == "sx" and name in ("b", "d", "u") and not args:
             return k("(sx_%s %s)" % (name, a), "num")
-        if s == "bop" and name == "projection":
-            return k("(g_projection %s)" % a, "num")
+        region = {"bop": "impl_bop", "sx": "impl_simplex"}.get(s)
+        if region and self.mod.has(region, name):
+            return self.call_args(args, env, lambda vals: self.apply_fn(region, name, [(a, s)] + vals, k))
         self.err("method .%s() on a %s" % (name, s))
 
     def index(self, a, s, i, k):
@@ -576,80 +751,111 @@ class Tr:
                 self.err("value of a checked constructor dropped")
             v = self.fresh("v")
             body = k(v, inner)
-            if body == "Some %s" % v or body == v + "?":
+            if body == "Some %s" % v:
                 return a
             return "match %s with Some %s => %s | None => %s end" % (a, v, body, self.fail())
         self.err("`?` / unwrap on a %s" % s)
+
+    def call_args(self, args, env, cont):
+        def go(i, acc):
+            if i == len(args):
+                return cont(acc)
+            return self.expr(args[i], env, lambda a, s: go(i + 1, acc + [(a, s)]))
+        return go(0, [])
 
     def call(self, e, env, k):
         _, path, args = e
         name = path[-1]
         full = "::".join(path)
+        if len(path) == 1 and name in env and env[name][1] == "closure":
+            params, body, cenv = env[name][0]
+            if len(params) != len(args):
+                self.err("closure %s called with %d arguments" % (name, len(args)))
 
-        def with_args(i, acc):
-            if i == len(args):
-                return self.apply(full, name, acc, k)
-            return self.expr(args[i], env, lambda a, s: with_args(i + 1, acc + [(a, s)]))
-        return with_args(0, [])
+            def inline(vals):
+                env2 = dict(cenv)
+                for p, (t, s) in zip(params, vals):
+                    env2[p] = (t, s)
+                if body[0] == "block":
+                    return self.block(body, env2, lambda t, s, _e: k(t, s))
+                return self.expr(body, env2, k)
+            return self.call_args(args, env, inline)
+        return self.call_args(args, env, lambda vals: self.apply(full, path, name, vals, k))
 
-    def apply(self, full, name, a, k):
+    def apply(self, full, path, name, a, k):
         nums = lambda n: len(a) >= n and all(s == "num" for _, s in a[:n])
         if name == "check_unit_interval" and nums(1):
             return k("(in_unit %s)" % a[0][0], "res")
         if name == "check_is_one" and nums(1):
             return k("(is_one %s)" % a[0][0], "res")
-        if name == "check_simplex" and nums(3) and len(a) == 3:
-            return k("(g_check_simplex %s %s %s)" % tuple(x for x, _ in a), "res")
-        if name == "check_base_rate" and nums(1) and len(a) == 1:
-            return k("(g_check_base_rate %s)" % a[0][0], "res")
         if name == "Ok" and len(a) == 1:
             t, s = a[0]
             if s == "unit":
                 return k("true", "res")
             if s in ("bop", "sx"):
                 return k("Some %s" % t, "opt_" + s)
-        if full in ("Self::try_new", "Self::new") or (len(full.split("::")) == 2 and name in ("try_new", "new")):
-            owner = full.split("::")[0]
-            if nums(4) and len(a) == 4 and owner in ("Self", "BOpinion"):
-                return k("(g_try_new %s %s %s %s)" % tuple(x for x, _ in a), "opt_bop")
-            if nums(3) and len(a) == 3 and owner in ("Self", "BSimplex"):
-                return k("(g_sx_try_new %s %s %s)" % tuple(x for x, _ in a), "opt_sx")
         if name == "new_unchecked" and len(a) == 2 and a[0][1] == "pair" and a[1][1] == "num":
             return k("(%s, %s)" % (a[0][0], a[1][0]), "sx")
-        if full == "Self" and len(a) == 1 and a[0][1] == "sx":
+        if name == "new_unchecked" and nums(4) and len(a) == 4:
+            return k("(mkbop %s %s %s %s)" % tuple(x for x, _ in a), "bop")
+        if name == "new_unchecked" and nums(3) and len(a) == 3:
+            return k("(%s, %s, %s)" % tuple(x for x, _ in a), "sx")
+        if full in ("Self", "BSimplex") and len(a) == 1 and a[0][1] == "sx":
             return k(a[0][0], "sx")          # tuple struct BSimplex(simplex)
+        # functions of this file
+        if len(path) == 1 and self.mod.has("top", name):
+            return self.apply_fn("top", name, a, k)
+        if len(path) == 2:
+            region = {"Self": self.region, "BOpinion": "impl_bop", "BSimplex": "impl_simplex"}.get(path[0])
+            if region and self.mod.has(region, name):
+                return self.apply_fn(region, name, a, k)
         self.err("call of %s with %d argument(s) of sorts %s" % (full, len(a), [s for _, s in a]))
+
+    def apply_fn(self, region, name, a, k):
+        g, sorts, ret = self.mod.need(region, name)
+        if [s for _, s in a if s != "str"] != [s for s in sorts if s != "str"]:
+            self.err("call of %s with arguments of sorts %s, expected %s" % (name, [s for _, s in a], sorts))
+        args = " ".join(t for t, s in a if s != "str")
+        return k("(%s %s)" % (g, args) if args else g, ret)
 
     def struct(self, e, env, k):
         _, path, fields = e
         names = [f for f, _ in fields]
-        if path != ["Self"] or names != ["simplex", "base_rate"]:
+        if path[-1] not in ("Self", "BOpinion") or sorted(names) != ["base_rate", "simplex"]:
             self.err("struct literal %s {%s}" % ("::".join(path), ", ".join(names)))
-        return self.expr(fields[0][1], env, lambda s, ss: self.expr(fields[1][1], env, lambda a, sa: (
-            k("(mk_bop %s %s)" % (s, a), "bop") if (ss, sa) == ("sx", "num") else self.err("fields of sorts %s, %s" % (ss, sa)))))
+        fd = dict(fields)
+        # fields are evaluated in the order written
+        order = names
+
+        def done(vals):
+            v = dict(zip(order, vals))
+            (s, ss), (a, sa) = v["simplex"], v["base_rate"]
+            if (ss, sa) != ("sx", "num"):
+                self.err("fields of sorts %s, %s" % (ss, sa))
+            return k("(mk_bop %s %s)" % (s, a), "bop")
+        return self.call_args([fd[n] for n in order], env, done)
 
     def match(self, e, env, k):
         _, scr, arms = e
-        if scr[0] != "tuple" or len(scr[1]) != 2:
-            self.err("match on something other than a pair")
+        items = scr[1] if scr[0] == "tuple" else [scr]
 
         def with_scr(i, acc):
-            if i == 2:
+            if i == len(items):
                 return self.arms(acc, arms, env, k)
-            return self.expr(scr[1][i], env, lambda a, s: (
-                with_scr(i + 1, acc + [a]) if s == "bool" else self.err("match on a pair of %s" % s)))
+            return self.expr(items[i], env, lambda a, s: (
+                with_scr(i + 1, acc + [a]) if s == "bool" else self.err("match on a %s" % s)))
         return with_scr(0, [])
 
     def arms(self, ms, arms, env, k):
-        # bind the two scrutinee booleans, then a chain of ifs; the last arm is taken unconditionally
+        # bind the scrutinee booleans, then a chain of ifs; the last arm is taken unconditionally
         # (the Rust compiler has checked exhaustiveness)
-        m0, m1 = self.fresh("m"), self.fresh("m")
+        names = [self.fresh("m") for _ in ms]
         sort = []
 
         def arm_body(pats, body):
             env2 = dict(env)
             if len(pats) == 1:
-                for p, m in zip(pats[0], (m0, m1)):
+                for p, m in zip(pats[0], names):
                     if p not in ("true", "false", "_"):
                         env2[p] = (m, "bool")
 
@@ -663,8 +869,10 @@ class Tr:
         def cond(pats):
             alts = []
             for p in pats:
+                if len(p) != len(names):
+                    self.err("pattern of %d items against %d scrutinees" % (len(p), len(names)))
                 cs = []
-                for q, m in zip(p, (m0, m1)):
+                for q, m in zip(p, names):
                     if q == "true":
                         cs.append(m)
                     elif q == "false":
@@ -678,11 +886,11 @@ class Tr:
                 return arm_body(pats, body)
             return "if %s\n   then %s\n   else %s" % (cond(pats), arm_body(pats, body), chain(i + 1))
         tm = chain(0)
-        return "let %s := %s in let %s := %s in\n  %s" % (m0, ms[0], m1, ms[1], k("(%s)" % tm, sort[0])) \
-            if False else k("(let %s := %s in let %s := %s in\n   %s)" % (m0, ms[0], m1, ms[1], tm), sort[0])
+        binds = " ".join("let %s := %s in" % (n, m) for n, m in zip(names, ms))
+        return k("(%s\n   %s)" % (binds, tm), sort[0])
 
 
-# ---------------------------------------------------------------- driver
+# ---------------------------------------------------------------- module
 
 ACCESSORS = [
     # (impl header regex, fn name, expected body)
@@ -695,27 +903,25 @@ ACCESSORS = [
     (r"impl<T>\s+BOpinion<T>", "a", "&self.base_rate"),
 ]
 
-FUNS = [
-    # gallina name, rust fn, where to look ('top' | 'impl_simplex' | 'impl_bop'), parameter sorts, return sort
-    ("g_check_simplex", "check_simplex", "top", ["num", "num", "num"], "res"),
-    ("g_check_base_rate", "check_base_rate", "top", ["num"], "res"),
-    ("g_sx_try_new", "try_new", "impl_simplex", ["num", "num", "num"], "opt_sx"),
-    ("g_sx_new", "new", "impl_simplex", ["num", "num", "num"], "opt_sx"),
-    ("g_try_new", "try_new", "impl_bop", ["num", "num", "num", "num"], "opt_bop"),
-    ("g_new", "new", "impl_bop", ["num", "num", "num", "num"], "opt_bop"),
-    ("g_projection", "projection", "impl_bop", ["bop"], "num"),
-    ("g_mul", "mul", "impl_bop", ["bop", "bop"], "opt_bop"),
-    ("g_comul", "comul", "impl_bop", ["bop", "bop"], "opt_bop"),
-    ("g_cfuse", "cfuse", "impl_bop", ["bop", "bop"], "opt_bop"),
-    ("g_afuse", "afuse", "impl_bop", ["bop", "bop", "num"], "opt_bop"),
-    ("g_wfuse", "wfuse", "impl_bop", ["bop", "bop", "num"], "opt_bop"),
-    ("g_deduce", "deduce", "impl_bop", ["bop", "sx2", "num"], "opt_bop"),
-    ("g_trans_unc", "trans_unc", "impl_bop", ["bop", "num"], "opt_bop"),
-    ("g_trans_opp", "trans_opp", "impl_bop", ["bop", "num", "num"], "opt_bop"),
-    ("g_trans_bsr", "trans_bsr", "impl_bop", ["bop", "num"], "opt_bop"),
+# the interface of the generated module: (gallina name, region, rust fn); everything else these call is a helper
+ENTRY = [
+    ("g_check_simplex", "top", "check_simplex"),
+    ("g_check_base_rate", "top", "check_base_rate"),
+    ("g_sx_try_new", "impl_simplex", "try_new"),
+    ("g_sx_new", "impl_simplex", "new"),
+    ("g_try_new", "impl_bop", "try_new"),
+    ("g_new", "impl_bop", "new"),
+    ("g_projection", "impl_bop", "projection"),
+    ("g_mul", "impl_bop", "mul"),
+    ("g_comul", "impl_bop", "comul"),
+    ("g_cfuse", "impl_bop", "cfuse"),
+    ("g_afuse", "impl_bop", "afuse"),
+    ("g_wfuse", "impl_bop", "wfuse"),
+    ("g_deduce", "impl_bop", "deduce"),
+    ("g_trans_unc", "impl_bop", "trans_unc"),
+    ("g_trans_opp", "impl_bop", "trans_opp"),
+    ("g_trans_bsr", "impl_bop", "trans_bsr"),
 ]
-
-GTYPE = {"num": "V", "bop": "bop", "sx2": "(sx * sx)", "res": "bool", "opt_bop": "option bop", "opt_sx": "option sx"}
 
 PRELUDE = '''(* GENERATED by tools/rs2v.py from %s - do not edit. *)
 From Coq Require Import List Bool.
@@ -740,20 +946,13 @@ Definition mk_bop (s : sx) (a : V) : bop := mkbop (sx_b s) (sx_d s) (sx_u s) a.
 '''
 
 
-def region(src, macro):
+def region_text(src, macro):
     """text of `macro_rules! <macro> { ... }`"""
     m = re.search(r"macro_rules!\s+%s\s*\{" % macro, src)
     if not m:
         raise Unsupported("macro %s not found" % macro)
     i = m.end() - 1
-    depth = 0
-    j = i
-    while True:
-        depth += (src[j] == "{") - (src[j] == "}")
-        j += 1
-        if depth == 0:
-            break
-    return src[i:j]
+    return src[i:brace_end(src, i)]
 
 
 def strip_comments(src):
@@ -765,50 +964,93 @@ def check_accessors(src):
         m = re.search(hdr + r"\s*\{", src)
         if not m:
             raise Unsupported("accessor impl block %s not found" % hdr)
-        _, _, body, _ = find_fn(src, fn, m.end())
-        got = re.sub(r"\s+", "", body.strip()[1:-1])
+        blk = src[m.end() - 1:brace_end(src, m.end() - 1)]
+        fns = all_fns(blk)
+        if fn not in fns:
+            raise Unsupported("accessor %s of `%s` not found" % (fn, hdr))
+        got = re.sub(r"\s+", "", fns[fn][2].strip()[1:-1])
         if got != want:
             raise Unsupported("accessor %s of `%s` is %r, the translator's table says %r" % (fn, hdr, got, want))
 
 
-def translate(path):
-    src = strip_comments(open(path).read())
-    check_accessors(src)
-    regions = {"top": src[:src.index("macro_rules!")], "impl_simplex": region(src, "impl_simplex"),
-               "impl_bop": region(src, "impl_bop")}
-    out = [PRELUDE % path]
-    for gname, fn, where, sorts, ret in FUNS:
-        params, header, body, _ = find_fn(regions[where], fn)
-        ps = param_names(params)
-        if len(ps) != len(sorts):
-            raise Unsupported("%s: %d parameters, %d expected" % (fn, len(ps), len(sorts)))
+class Module:
+    def __init__(self, path):
+        self.path = path
+        src = strip_comments(open(path).read())
+        check_accessors(src)
+        top = src[:src.index("macro_rules!")]
+        self.fns = {"top": all_fns(top), "impl_simplex": all_fns(region_text(src, "impl_simplex")),
+                    "impl_bop": all_fns(region_text(src, "impl_bop"))}
+        self.names = {(r, f): g for g, r, f in ENTRY}
+        self.done = {}      # (region, fn) -> (gname, sorts, ret)
+        self.out = []
+        self.helpers = []
+        self.active = []
+
+    def has(self, region, name):
+        return name in self.fns[region] and name not in ("b", "d", "u", "a")
+
+    def need(self, region, name):
+        key = (region, name)
+        if key in self.done:
+            return self.done[key]
+        if key in self.active:
+            raise Unsupported("recursive function %s" % name)
+        self.active.append(key)
+        params, header, body = self.fns[region][name]
+        gname = self.names.get(key)
+        if gname is None:
+            gname = ("g_sx_" if region == "impl_simplex" else "g_") + name
+            while gname in {v[0] for v in self.done.values()} | set(self.names.values()):
+                gname += "_"
+            self.helpers.append(gname)
+        ps = param_list(params)
+        sorts = [type_sort(t, region) for _, t in ps]
+        ret = ret_sort(header, region)
         env = {}
         gparams = []
+        tr = Tr(self, region, gname, ret)
         for (pn, pt), s in zip(ps, sorts):
+            if s == "str":
+                env[pn] = ('""', "str")
+                continue
             g = {"self": "x", "rhs": "y"}.get(pn, pn)
-            if g in ("mul", "add", "sub", "div"):
+            if g in RESERVED:
                 g += "_"
             env[pn] = (g, s)
             gparams.append("(%s : %s)" % (g, GTYPE[s]))
-        tr = Tr(gname, ret, env)
         blk = P(lex(body)).block()
 
-        def final(t, s, _env, tr=tr, ret=ret):
-            if s == ret or (ret == "res" and s == "res"):
+        def final(t, s, _env):
+            if s == ret:
                 return t
             if ret.startswith("opt_") and s == ret[4:]:
                 return "Some %s" % t
+            if ret == "res" and s == "bool":
+                return t
             tr.err("body of sort %s where %s is returned" % (s, ret))
+        tr.kret = final
         term = tr.block(blk, env, final)
-        out.append("(* fn %s(%s)%s *)\nDefinition %s %s : %s :=\n  %s.\n" % (
-            fn, re.sub(r"\s+", " ", params.strip()), re.sub(r"\s+", " ", header.rstrip()), gname, " ".join(gparams), GTYPE[ret], term))
-    out.append("End BiGen.\n")
-    return "\n".join(out)
+        self.out.append("(* fn %s(%s)%s *)\nDefinition %s %s : %s :=\n  %s.\n" % (
+            name, re.sub(r"\s+", " ", params.strip()), re.sub(r"\s+", " ", header.rstrip()), gname, " ".join(gparams), GTYPE[ret], term))
+        self.active.pop()
+        self.done[key] = (gname, sorts, ret)
+        return self.done[key]
+
+    def render(self):
+        for g, r, f in ENTRY:
+            if f not in self.fns[r]:
+                raise Unsupported("function %s not found" % f)
+            self.need(r, f)
+        unfold = ("cbv beta delta [%s]" % " ".join(self.helpers)) if self.helpers else "idtac"
+        return (PRELUDE % self.path) + "\n" + "\n".join(self.out) + "\nEnd BiGen.\n\n" + \
+            "(* private helper functions of the source: unfolded before a generated operator is compared with the model *)\n" + \
+            "Ltac gen_unfold := %s.\n" % unfold
 
 
 if __name__ == "__main__":
     try:
-        sys.stdout.write(translate(sys.argv[1]))
+        sys.stdout.write(Module(sys.argv[1]).render())
     except Unsupported as e:
         sys.stderr.write("rs2v: outside the translated subset: %s\n" % e)
         sys.exit(2)
